@@ -64,8 +64,24 @@ Definition pc2_ok : bool :=
                     match nth_error t (N.to_nat c - 1) with
                     | Some (_, sets) => N.eqb (pair_code sets) (k + 1)      (* documented: argument k is Pauli pair number k + 1 *)
                     | None => false end) [0;1;2;3;4;5;6;7;8;9;10;11;12;13;14]%N.
+(* heralded channels: a Pauli is applied only together with the herald; with the herald set the term's Pauli is the labelled one *)
+Definition strip_herald (sets : list string) : list string := filter (fun n => negb (String.eqb n "herald")) sets.
+Definition herald_term_ok (labelled : bool) (t : string * list string) : bool :=
+  let '(l, sets) := t in
+  let pz := strip_herald sets in
+  term_ok1 pz &&
+  (if mem "herald" sets
+   then (if labelled then N.eqb (label_code l) (code (pauli_of1 "xs" "zs" pz)) && negb (String.eqb l "0") else String.eqb l "quarter")
+   else String.eqb l "0").
+Definition heralded_ok (g : string) (labelled : bool) : bool :=
+  let t := terms_of g in
+  Nat.eqb (List.length t) 7 && forallb (herald_term_ok labelled) t &&
+  (* the four herald terms carry the four distinct Paulis I X Y Z *)
+  match sortedN (map (fun '(_, sets) => code (pauli_of1 "xs" "zs" (strip_herald sets))) (filter (fun '(_, sets) => mem "herald" sets) t)) with
+  | [0; 1; 2; 3]%N => true | _ => false end.
 Definition is_nil {A} (l : list A) : bool := match l with [] => true | _ => false end.
 Definition ea_noise_all_ok : bool :=
+  heralded_ok "HERALDED_ERASE" false && heralded_ok "HERALDED_PAULI_CHANNEL_1" true &&
   is_nil ea_noise_refused && single_ok "X_ERROR" (true, false) && single_ok "Y_ERROR" (true, true) && single_ok "Z_ERROR" (false, true) &&
   e_ok && dep1_ok && pc1_ok && dep2_ok && pc2_ok.
 Theorem analyzer_noise_routines_match_adjgen : ea_noise_all_ok = true.
